@@ -2,15 +2,14 @@ package world
 
 import (
 	"go.sia.tech/core/consensus"
-	"verif/sim"
 )
 
 type Renter struct{}
 type Adversary struct{}
 
-func applyProfile(t *sim.Tape, c *Config, tier string) {}
 
-func (w *World) setupExtras() {}
+
+func (w *World) setupExtras() { w.setupLights() }
 
 func (w *World) actExtra(wl *Wallet, n *Node, v1ok, v2ok bool) []*PoolTxn { return nil }
 
@@ -23,9 +22,5 @@ func (w *World) restartNode(n *Node) {}
 
 func (w *World) finalChecks() {}
 
-type Light struct{}
-
-func (w *World) lightsApplied(n *Node, e *blockEntry, au consensus.ApplyUpdate)    {}
-func (w *World) lightsReverted(n *Node, e *blockEntry, ru consensus.RevertUpdate) {}
 func (w *World) extrasApplied(n *Node, e *blockEntry, au consensus.ApplyUpdate, first bool) {
 }
